@@ -258,6 +258,9 @@ static void sec_cross(vf::Ctx& c) {
     else expect = same_content;
     bool ab = A.equals(B), ba = B.equals(A);
     std::string tp = std::string(K_NAME[ka]) + "~" + K_NAME[kb];
+    // custom-type objects of the SAME type name: the statement says nothing about them (comparator semantics) -> executed, not judged
+    bool same_object_type = (obj1_a && obj1_b) || (ka == kb && (ka == K_OBJ_T2 || ka == K_OBJ_NOCMP));
+    if (same_object_type) { c.count("cross_pairs_same_object_type_unjudged"); return; }
     if (ab != expect) c.violation("cross-equals-wrong:" + tp, "equals=" + std::to_string(ab) + " expected " + std::to_string(expect));
     if (ab != ba) c.violation("cross-asymmetric:" + tp, "A.equals(B) != B.equals(A)");
     c.count("cross_pairs");
